@@ -113,12 +113,52 @@ func runC04(c *engine.Ctx) {
 					}
 					uses++
 					name := p.FuncName(f)
+					// the bool parameter that stands for "internal": RegisterControl's own, or — when the selection was
+					// extracted into an unexported helper — the helper parameter that every call site feeds with it
+					internalParam := func(v ssa.Value) bool { return isParam("internal")(v) }
 					if f != regCtl {
-						c.Violate(name, in.Pos(), nil, "auth.AlwaysPassVerifier is used outside Service.RegisterControl: a second place can exempt a peer from the credential check")
-						continue
+						fo, _ := f.Object().(*types.Func)
+						var sites []ssa.CallInstruction
+						foreign := false
+						if fo != nil && !fo.Exported() && f.Parent() == nil {
+							for _, g := range p.RepoFuncs() {
+								for _, cs := range engine.CallsTo(g, fo) {
+									if g != regCtl {
+										foreign = true
+									}
+									sites = append(sites, cs)
+								}
+							}
+						}
+						if fo == nil || fo.Exported() || len(sites) == 0 || foreign {
+							c.Violate(name, in.Pos(), nil, "auth.AlwaysPassVerifier is used outside Service.RegisterControl (and not in a private helper called only from it): a second place can exempt a peer from the credential check")
+							continue
+						}
+						internalParam = func(v ssa.Value) bool {
+							pr, ok := v.(*ssa.Parameter)
+							if !ok {
+								return false
+							}
+							idx := -1
+							for i, q := range f.Params {
+								if q == pr {
+									idx = i
+								}
+							}
+							if idx < 0 {
+								return false
+							}
+							for _, cs := range sites {
+								args := engine.CallArgs(cs)
+								if idx >= len(args) || !isParam("internal")(engine.Unwrap(args[idx])) {
+									return false
+								}
+							}
+							return true
+						}
 					}
 					c.AllPaths(name, engine.PathCheck{Fn: f, Sink: engine.Is(in), Pred: func(st *engine.PathState) string {
-						v1, k1 := st.Truth(isParam("internal"))
+						v1, k1 := st.Truth(internalParam)
 						v2, k2 := st.Truth(loadOfField(alwaysField))
 						if !(k1 && v1) {
 							return "the always-pass verifier is selected on a path that does not require internal==true (a network peer could be exempted)"
@@ -137,9 +177,8 @@ func runC04(c *engine.Ctx) {
 	c.Rule("R2d", "the verifier fields Service.authVerifier and Control.authVerifier are written only by their constructors, and the always-pass verifier never flows into a field or global (it stays a per-login local)")
 	nst := 0
 	for _, spec := range [][3]string{{"server", "Service", "NewService"}, {"server", "Control", "NewControl"}} {
-		vf := p.Field(spec[0], spec[1], "authVerifier")
+		vf := field(c, spec[0], spec[1], "authVerifier")
 		if vf == nil {
-			c.Missing(spec[0]+"."+spec[1]+".authVerifier", "field not found")
 			continue
 		}
 		ctor := p.FuncObj(spec[0], spec[2])
